@@ -447,9 +447,13 @@ scansetloc(struct location loc)
 static void
 scanclose(void)
 {
+	struct scanner *next;
+
+	next = scanner->next;
 	fclose(scanner->file);
 	free(scanner->buf.str);
 	free(scanner);
+	scanner = next;
 }
 
 void
@@ -461,7 +465,6 @@ scan(struct token *t)
 		if (t->kind != TEOF || !scanner->next)
 			break;
 		scanclose();
-		scanner = scanner->next;
 		scanopen();
 	}
 	if (scanner->usebuf) {
